@@ -508,4 +508,282 @@ theorem dedupFrom_nil_head {l : List Target} {t : Target} (h : l.head? = some t)
     subst h
     simp [dedupFrom]
 
+/-! ### `unique_by` under the comparator, WITHOUT the one-shard-per-node invariant (tablet replicas, odd inputs) -/
+
+theorem targetEq_symm (a b : Target) : targetEq a b = targetEq b a := by
+  unfold targetEq
+  cases ha : a.2 <;> cases hb : b.2 <;> simp [Bool.beq_comm]
+
+theorem targetEq_refl (a : Target) : targetEq a a = true := by
+  unfold targetEq; cases a.2 <;> simp
+
+/-- `impl Hash` / `impl Eq` contract: equal keys have equal hashes. -/
+def HashContract (hash : Target → Nat) : Prop := ∀ a b, targetEq a b = true → hash a = hash b
+
+theorem targetHash_contract : HashContract targetHash := by
+  intro a b h
+  unfold targetEq at h
+  simp only [Bool.and_eq_true, beq_iff_eq] at h
+  exact h.1
+
+/-- Under the contract the hash map finds an equal key iff one was kept: the bucket restriction is invisible. -/
+theorem uniqueByHashedFrom_eq {hash : Target → Nat} (hc : HashContract hash) (seen l : List Target) :
+    uniqueByHashedFrom hash seen l = uniqueByFrom seen l := by
+  induction l generalizing seen with
+  | nil => rfl
+  | cons a l ih =>
+    have : (seen.any (fun s => hash s == hash a && targetEq s a)) = seen.any (fun s => targetEq s a) := by
+      have hf : (fun s => hash s == hash a && targetEq s a) = (fun s => targetEq s a) := by
+        funext s
+        cases h : targetEq s a with
+        | false => simp
+        | true => simp [hc s a h]
+      rw [hf]
+    simp only [uniqueByHashedFrom, uniqueByFrom, this, ih]
+
+theorem uniqueByFrom_sublist (seen l : List Target) : (uniqueByFrom seen l).Sublist l := by
+  induction l generalizing seen with
+  | nil => exact List.Sublist.refl _
+  | cons a l ih =>
+    simp only [uniqueByFrom]
+    split
+    · exact (ih seen).cons a
+    · exact (ih (a :: seen)).cons_cons a
+
+/-- What `unique_by` keeps: no kept element equals (under the comparator) a seen or an earlier kept one. -/
+theorem uniqueByFrom_pairwise (seen l : List Target) :
+    (uniqueByFrom seen l).Pairwise (fun a b => targetEq a b = false) ∧
+      ∀ t ∈ uniqueByFrom seen l, ∀ s ∈ seen, targetEq s t = false := by
+  induction l generalizing seen with
+  | nil => simp [uniqueByFrom]
+  | cons a l ih =>
+    simp only [uniqueByFrom]
+    split
+    · exact ih seen
+    · rename_i hany
+      have hany' : ∀ s ∈ seen, targetEq s a = false := by
+        intro s hs
+        cases h : targetEq s a with
+        | false => rfl
+        | true => exact absurd (List.any_eq_true.mpr ⟨s, hs, h⟩) hany
+      obtain ⟨h1, h2⟩ := ih (a :: seen)
+      refine ⟨List.pairwise_cons.mpr ⟨fun t ht => h2 t ht a (List.mem_cons_self ..), h1⟩, ?_⟩
+      intro t ht s hs
+      rcases List.mem_cons.mp ht with rfl | ht
+      · exact hany' s hs
+      · exact h2 t ht s (List.mem_cons_of_mem _ hs)
+
+/-- What `unique_by` drops: only elements equal (under the comparator) to a seen or a kept one. -/
+theorem uniqueByFrom_cover {seen l : List Target} {t : Target} (h : t ∈ l) :
+    (∃ s ∈ seen, targetEq s t = true) ∨ ∃ u ∈ uniqueByFrom seen l, targetEq u t = true := by
+  induction l generalizing seen with
+  | nil => simp at h
+  | cons a l ih =>
+    simp only [uniqueByFrom]
+    rcases List.mem_cons.mp h with rfl | h
+    · split
+      · rename_i hany
+        obtain ⟨s, hs, hst⟩ := List.any_eq_true.mp hany
+        exact Or.inl ⟨s, hs, hst⟩
+      · exact Or.inr ⟨t, List.mem_cons_self .., targetEq_refl t⟩
+    · split
+      · exact ih h
+      · rcases ih (seen := a :: seen) h with ⟨s, hs, hst⟩ | ⟨u, hu, hut⟩
+        · rcases List.mem_cons.mp hs with rfl | hs
+          · exact Or.inr ⟨s, List.mem_cons_self .., hst⟩
+          · exact Or.inl ⟨s, hs, hst⟩
+        · exact Or.inr ⟨u, List.mem_cons_of_mem _ hu, hut⟩
+
+/-- An element that only equals itself in the list (and nothing seen) is kept. -/
+theorem mem_uniqueByFrom_of_unique {seen l : List Target} {t : Target} (h : t ∈ l)
+    (hu : ∀ u ∈ l, targetEq u t = true → u = t) (hs : ∀ s ∈ seen, targetEq s t = false) : t ∈ uniqueByFrom seen l := by
+  induction l generalizing seen with
+  | nil => simp at h
+  | cons a l ih =>
+    have hu' : ∀ u ∈ l, targetEq u t = true → u = t := fun u hu1 => hu u (List.mem_cons_of_mem _ hu1)
+    simp only [uniqueByFrom]
+    by_cases hat : a = t
+    · subst hat
+      have : seen.any (fun s => targetEq s a) = false := by
+        rw [Bool.eq_false_iff]; intro hc
+        obtain ⟨s, hs1, hs2⟩ := List.any_eq_true.mp hc
+        rw [hs s hs1] at hs2; cases hs2
+      rw [this]; exact List.mem_cons_self ..
+    · have htl : t ∈ l := by
+        rcases List.mem_cons.mp h with h | h
+        · exact absurd h.symm hat
+        · exact h
+      split
+      · exact ih htl hu' hs
+      · refine List.mem_cons_of_mem _ (ih htl hu' ?_)
+        intro s hs1
+        rcases List.mem_cons.mp hs1 with rfl | hs1
+        · cases hst : targetEq s t with
+          | false => rfl
+          | true => exact absurd (hu s (List.mem_cons_self ..) hst) hat
+        · exact hs s hs1
+
+/-- Kept in a prefix, kept in the whole. -/
+theorem mem_uniqueByFrom_append_left {seen A : List Target} (B : List Target) {t : Target}
+    (h : t ∈ uniqueByFrom seen A) : t ∈ uniqueByFrom seen (A ++ B) := by
+  induction A generalizing seen with
+  | nil => simp [uniqueByFrom] at h
+  | cons a A ih =>
+    simp only [List.cons_append, uniqueByFrom] at h ⊢
+    split
+    · rename_i hany; rw [if_pos hany] at h; exact ih h
+    · rename_i hany
+      rw [if_neg hany] at h
+      rcases List.mem_cons.mp h with rfl | h
+      · exact List.mem_cons_self ..
+      · exact List.mem_cons_of_mem _ (ih h)
+
+theorem compat_append {s1 s2 : List (Option (Option Target))} {g1 g2 : List (List Target)}
+    (h1 : Compat s1 g1) (h2 : Compat s2 g2) : Compat (s1 ++ s2) (g1 ++ g2) := by
+  induction s1 generalizing g1 with
+  | nil =>
+    cases g1 with
+    | nil => exact h2
+    | cons g g1 => exact absurd h1 (by simp [Compat])
+  | cons s s1 ih =>
+    cases g1 with
+    | nil => exact absurd h1 (by simp [Compat])
+    | cons g g1 => exact ⟨h1.1, ih h1.2⟩
+
+theorem compat_drop {s : List (Option (Option Target))} {g : List (List Target)} (h : Compat s g) (k : Nat) :
+    Compat (s.drop k) (g.drop k) := by
+  induction k generalizing s g with
+  | zero => simpa using h
+  | succ k ih =>
+    cases s with
+    | nil =>
+      cases g with
+      | nil => simpa using h
+      | cons g' gs => exact absurd h (by simp [Compat])
+    | cons s' ss =>
+      cases g with
+      | nil => exact absurd h (by simp [Compat])
+      | cons g' gs => simpa using ih h.2
+
+theorem firstReturn_none_all {α : Type} {l : List (Option α)} (h : firstReturn l = none) : ∀ s ∈ l, s = none := by
+  induction l with
+  | nil => simp
+  | cons a l ih =>
+    cases a with
+    | some r => simp [firstReturn] at h
+    | none =>
+      intro s hs
+      rcases List.mem_cons.mp hs with rfl | hs
+      · rfl
+      · exact ih (by simpa [firstReturn] using h) s hs
+
+theorem compat_all_none {ss : List (Option (Option Target))} {gs : List (List Target)} (hc : Compat ss gs)
+    (h : ∀ s ∈ ss, s = none) : ∀ g ∈ gs, g = [] := by
+  induction ss generalizing gs with
+  | nil =>
+    cases gs with
+    | nil => simp
+    | cons g gs => exact absurd hc (by simp [Compat])
+  | cons s ss ih =>
+    cases gs with
+    | nil => exact absurd hc (by simp [Compat])
+    | cons g gs =>
+      intro g' hg'
+      rcases List.mem_cons.mp hg' with rfl | hg'
+      · exact hc.1.2 (h s (List.mem_cons_self ..))
+      · exact ih hc.2 (fun s' hs' => h s' (List.mem_cons_of_mem _ hs')) g' hg'
+
+theorem pairwise_ne_mem {l : List Target} (hp : l.Pairwise (fun a b => targetEq a b = false)) {a b : Target}
+    (ha : a ∈ l) (hb : b ∈ l) (hne : a ≠ b) : targetEq a b = false := by
+  induction l with
+  | nil => simp at ha
+  | cons c l ih =>
+    obtain ⟨h1, h2⟩ := List.pairwise_cons.mp hp
+    rcases List.mem_cons.mp ha with rfl | ha' <;> rcases List.mem_cons.mp hb with hb' | hb'
+    · exact absurd hb'.symm hne
+    · exact h1 b hb'
+    · rw [hb', targetEq_symm]; exact h1 a ha'
+    · exact ih h2 ha' hb'
+
+theorem litEq_targetEq {a b : Target} (h : litEq a b = true) : targetEq a b = true := by
+  unfold litEq at h
+  simp only [Bool.and_eq_true, beq_iff_eq] at h
+  unfold targetEq
+  rw [h.2]
+  cases b.2 <;> simp [h.1]
+
+/-- On a list without comparator-equal pairs, `pick` answering nothing makes the plan the fallback itself. -/
+theorem planOf_none_of_pairwise {fb : List Target} (hp : fb.Pairwise (fun a b => targetEq a b = false)) :
+    planOf none fb = fb := by
+  cases fb with
+  | nil => rfl
+  | cons t rest =>
+    simp only [planOf]
+    congr 1
+    apply List.filter_eq_self.mpr
+    intro u hu
+    obtain ⟨h1, _⟩ := List.pairwise_cons.mp hp
+    cases h : litEq u t with
+    | false => rfl
+    | true =>
+      have := h1 u hu
+      rw [targetEq_symm, litEq_targetEq h] at this; cases this
+
+theorem planOf_mem_of_pairwise {pk : Option Target} {fb : List Target}
+    (hp : fb.Pairwise (fun a b => targetEq a b = false)) (hpk : ∀ t, pk = some t → t ∈ fb) (u : Target) :
+    u ∈ planOf pk fb ↔ u ∈ fb := by
+  cases pk with
+  | none => rw [planOf_none_of_pairwise hp]
+  | some t =>
+    have ht := hpk t rfl
+    simp only [planOf, List.mem_cons, List.mem_filter]
+    constructor
+    · rintro (rfl | ⟨h, _⟩)
+      · exact ht
+      · exact h
+    · intro hu
+      by_cases hut : u = t
+      · exact Or.inl hut
+      · refine Or.inr ⟨hu, ?_⟩
+        cases h : litEq u t with
+        | false => rfl
+        | true =>
+          have := pairwise_ne_mem hp hu ht hut
+          rw [litEq_targetEq h] at this; cases this
+
+theorem planOf_pairwise_ne {pk : Option Target} {fb : List Target}
+    (hp : fb.Pairwise (fun a b => targetEq a b = false)) (hpk : ∀ t, pk = some t → t ∈ fb) :
+    (planOf pk fb).Pairwise (fun a b => targetEq a b = false) := by
+  cases pk with
+  | none => rw [planOf_none_of_pairwise hp]; exact hp
+  | some t =>
+    have ht := hpk t rfl
+    simp only [planOf, List.pairwise_cons]
+    refine ⟨?_, hp.sublist List.filter_sublist⟩
+    intro u hu
+    obtain ⟨hu1, hu2⟩ := List.mem_filter.mp hu
+    apply pairwise_ne_mem hp ht hu1
+    intro hc
+    rw [← hc, litEq_self] at hu2; cases hu2
+
+theorem planOf_pairwise_of {R : Target → Target → Prop} {pk : Option Target} {fb : List Target}
+    (hp : fb.Pairwise (fun a b => targetEq a b = false)) (hR : fb.Pairwise R) (hmin : ∀ t, pk = some t → ∀ u ∈ fb, R t u) :
+    (planOf pk fb).Pairwise R := by
+  cases pk with
+  | none => rw [planOf_none_of_pairwise hp]; exact hR
+  | some t =>
+    simp only [planOf, List.pairwise_cons]
+    exact ⟨fun u hu => hmin t rfl u (List.mem_filter.mp hu).1, hR.sublist List.filter_sublist⟩
+
+theorem uniqueByFrom_append (seen A B : List Target) :
+    ∃ seen', uniqueByFrom seen (A ++ B) = uniqueByFrom seen A ++ uniqueByFrom seen' B := by
+  induction A generalizing seen with
+  | nil => exact ⟨seen, rfl⟩
+  | cons a A ih =>
+    simp only [List.cons_append, uniqueByFrom]
+    split
+    · exact ih seen
+    · obtain ⟨s', h⟩ := ih (a :: seen)
+      exact ⟨s', by rw [h]; rfl⟩
+
 end ScyllaVerif.Proofs.Plan
